@@ -1,7 +1,8 @@
 (* Props/C10.v -- property C10: pattern text <-> pattern object model.
    Statements only; proofs are in Proofs/Pattern*.v.                         *)
 From Coq Require Import NArith ZArith List String Bool.
-From V Require Import Model.PatternSyntax Proofs.PatternEscape Proofs.PatternRefuted.
+From V Require Import Model.PatternSyntax Proofs.PatternEscape Proofs.PatternRefuted
+  Proofs.PatternLit Proofs.PatternPath Proofs.PatternCmp Proofs.PatternObs Proofs.PatternMeaning.
 Import ListNotations.
 
 (* string constants are escaped correctly: the literal the printer writes for
@@ -9,6 +10,24 @@ Import ListNotations.
 Theorem string_escape_roundtrip : forall s : ustring, lex_string (print_string s) = Some s.
 Proof. exact string_escape_roundtrip_lemma. Qed.
 Print Assumptions string_escape_roundtrip.
+
+(* For every well-formed parse tree (wf: one constructor per grammar
+   alternative, every token of the lexical class the grammar asks for) that
+   satisfies the side conditions `sem` (Proofs/PatternObs.v: real timestamps,
+   no EXISTS, paths the visitor can build, ANDs the library does not refuse --
+   each exclusion is a listed finding or a deliberate refusal), the visitor with
+   NOT handled (`repaired`) yields an object with the same meaning: every
+   comparison with its operator and negation, every constant, every path
+   step, every qualifier, and the grouping. *)
+Theorem visit_preserves : forall c : pattern, wf c = true -> sem c = true ->
+  exists a, visit repaired c = Ok a /\ meaning_ast a = meaning_cst c.
+Proof. exact visit_preserves_lemma. Qed.
+Print Assumptions visit_preserves.
+
+(* the visitor is the structural function sv_fb on those trees *)
+Theorem visit_is_structural : forall c : pattern, wf c = true -> sem c = true -> visit repaired c = Ok (sv_fb c).
+Proof. exact visit_sv. Qed.
+Print Assumptions visit_is_structural.
 
 (* ---- the pinned visitor does not have the property (witnesses) ---- *)
 Theorem visit_preserves_refuted_not_neq :
